@@ -73,7 +73,7 @@ func mkConfig(e common.Entry, truecolor bool) config {
 	c.caps.CursorStyles = ti.CursorDefault != "" || mouse || xt
 	c.caps.CursorColor = true
 	c.brTrick = ti.AutoMargin && ti.DisableAutoMargin == "" && ti.InsertChar != ""
-	c.quirks = vt.Quirks{FFClears: strings.HasPrefix(ti.Name, "sun"), AltFont: ti.EnterAcs == "\x1b[11m" || ti.EnterAcs == "\x1b[12m", NoAutoWrap: !ti.AutoMargin}
+	c.quirks = vt.Quirks{FFClears: strings.HasPrefix(ti.Name, "sun"), AltFont: ti.EnterAcs == "\x1b[11m" || ti.EnterAcs == "\x1b[12m", NoAutoWrap: !ti.AutoMargin, EagerWrap: c.brTrick}
 	// aixterm and pcansi define "original pair" as an explicit colour pair: what ColorReset
 	// shows there is not "the terminal default", so colours of such cells are not compared
 	if ti.ResetFgBg != "" {
